@@ -187,7 +187,34 @@ fn insert_uses(items: &mut Vec<Item>, name: &str, k: usize) -> bool {
     collect_bridge_paths(items, String::new(), &mut paths);
     let mut sorted = paths.clone();
     sorted.sort();
-    fn walk(items: &mut Vec<Item>, prefix: String, sorted: &[String], name: &str, k: usize, done: &mut bool) {
+    // public static methods of enums anywhere in the original bridge (names only; see the named constructors below)
+    let mut all_statics: Vec<String> = vec![];
+    for_each_bridge(items, &mut |m| {
+        if m.ident.to_string().contains("_verif_shadow_") {
+            return;
+        }
+        if let Some((_, inner)) = &m.content {
+            let enums: Vec<String> = inner.iter().filter_map(|i| if let Item::Enum(e) = i { Some(e.ident.to_string()) } else { None }).collect();
+            for i in inner.iter() {
+                if let Item::Impl(im) = i {
+                    if let syn::Type::Path(tp) = &*im.self_ty {
+                        if tp.path.get_ident().map(|id| enums.contains(&id.to_string())).unwrap_or(false) {
+                            for ii in &im.items {
+                                if let syn::ImplItem::Fn(f) = ii {
+                                    if f.sig.receiver().is_none() && matches!(f.vis, syn::Visibility::Public(_)) {
+                                        all_statics.push(f.sig.ident.to_string());
+                                    }
+                                }
+                            }
+                        }
+                    }
+                }
+            }
+        }
+    });
+    all_statics.sort();
+    all_statics.dedup();
+    fn walk(items: &mut Vec<Item>, prefix: String, sorted: &[String], name: &str, k: usize, done: &mut bool, all_statics: &[String]) {
         for it in items.iter_mut() {
             if let Item::Mod(m) = it {
                 let p = if prefix.is_empty() { m.ident.to_string() } else { format!("{}::{}", prefix, m.ident) };
@@ -286,27 +313,14 @@ fn insert_uses(items: &mut Vec<Item>, name: &str, k: usize) -> bool {
                             _ => methods.push(parse_quote! { pub fn #f(x: &[u8]) -> u8 { x.len() as u8 } }),
                         }
                     }
-                    // member names of other types reused: named constructors called like static methods of local enums
-                    let enum_names: Vec<String> = local.iter().filter(|(_, k)| *k == "enum").map(|(n, _)| n.clone()).collect();
-                    let mut statics: Vec<String> = vec![];
-                    for i in inner.iter() {
-                        if let Item::Impl(im) = i {
-                            if let syn::Type::Path(tp) = &*im.self_ty {
-                                if tp.path.get_ident().map(|id| enum_names.contains(&id.to_string())).unwrap_or(false) {
-                                    for ii in &im.items {
-                                        if let syn::ImplItem::Fn(f) = ii {
-                                            if f.sig.receiver().is_none() && matches!(f.vis, syn::Visibility::Public(_)) {
-                                                statics.push(f.sig.ident.to_string());
-                                            }
-                                        }
-                                    }
-                                }
-                            }
-                        }
+                    // member names of other types reused: named constructors called like public static methods of the
+                    // bridge's enums (a name is only a string: the enum need not live in this module)
+                    let mut statics: Vec<String> = all_statics.to_vec();
+                    if !statics.is_empty() {
+                        let r = (k + j) % statics.len();
+                        statics.rotate_left(r);
                     }
-                    statics.sort();
-                    statics.dedup();
-                    for (t, nm) in statics.iter().take(2).enumerate() {
+                    for (t, nm) in statics.iter().take(3).enumerate() {
                         let f = syn::Ident::new(&format!("verif_named{}", t), proc_macro2::Span::call_site());
                         methods.push(parse_quote! {
                             #[diplomat::attr(auto, named_constructor = #nm)]
@@ -321,13 +335,13 @@ fn insert_uses(items: &mut Vec<Item>, name: &str, k: usize) -> bool {
                     inner.insert(at2, impl_item);
                     *done = true;
                 } else if let Some((_, inner)) = &mut m.content {
-                    walk(inner, p, sorted, name, k, done);
+                    walk(inner, p, sorted, name, k, done, all_statics);
                 }
             }
         }
     }
     let mut done = false;
-    walk(items, String::new(), &sorted, name, k, &mut done);
+    walk(items, String::new(), &sorted, name, k, &mut done, &all_statics);
     done
 }
 
